@@ -29,7 +29,7 @@ HT_NAMES = {None: "all", 1: "all", 2: "none", 3: "single", 0x81: "all+acp", 0x82
 
 def plan(tier, seed):
     q = tier == "quick"
-    return [{"kind": "hist", "n": 10 if q else 160, "slot": i} for i in range(16 if q else 64)]
+    return [{"kind": "hist", "n": 10 if q else 160, "slot": i, "env": {"PYTHONHASHSEED": str(i % 5)}} for i in range(16 if q else 64)]
 
 
 def selftest(rec):
